@@ -1,4 +1,5 @@
 import PlumpyModel.Expose.Proof
+import PlumpyModel.Expose.ProofFull4
 /-!
 # C15 — exposing ports copies exactly the selected ports
 
@@ -7,8 +8,15 @@ Model: `Expose.absorbPorts` (lean/PlumpyModel/Expose/Model.lean) mirrors the loo
 namespace) with value semantics.  Specification: `Expose.selected` — a source leaf is exposed iff no exclude rule is a
 component-wise prefix of its path and, when include rules are given, some include rule is.
 
-What is NOT a theorem here and is decided by the Python monitors on the real objects: the copies are fresh objects
-(independence in both directions), namespace properties and option overrides, the destination's other ports stay.
+Full model: `Expose.Full.exposePorts` (lean/PlumpyModel/Expose/Full.lean) mirrors the whole call `ProcessSpec._expose_ports`
+= `create_port_namespace` + `absorb` on port OBJECTS with identities, namespace properties, dict assignment and an allocation
+counter; the `C15_full_*` theorems below are about it, for every source tree, destination tree, rule sets, target namespace
+and option overrides.  `r := exposePorts src nsp ex inc opts dst c` is `(destination afterwards, counter afterwards, the list
+stored in the exposed-port memory or the error)`.
+
+What is NOT a theorem here: that a property VALUE (a dict used as `default`, a validator) is shared by reference between the
+source namespace and its copy (`copy.copy`, `setattr(self, attr, getattr(source, attr))`) — values are atoms in the model;
+in-place changes of leaf-port attribute values are probed by the Python monitors.
 -/
 namespace Expose
 
@@ -43,5 +51,346 @@ example : WF (some [["ab", "x"]]) ∧ NoAnc (some [["ab", "x"]]) := by
   constructor
   · intro r hr; simp [rulesOf] at hr; subst hr; simp
   · intro r hr s hs; simp [rulesOf] at hr hs; subst hr; subst hs; simp
+
+
+/-! ## the full call on port objects -/
+open Full
+
+/-- **placement + selection + properties of the target** (the call succeeds).  Let `tgt0` be the namespace that
+`create_port_namespace` returns for the requested namespace (`targetOf`: the destination itself for `None` / `''`; see
+`C15_full_target_existing_or_new`).  If include and exclude are not both given and every option names a property, then the
+call returns normally and there is a dict `cp` of copies such that: the returned / remembered names are the keys of `cp`;
+read as a tree, `cp` has exactly the source leaves selected by the rules, in source order (`selection_exact`); the namespace
+at the requested path afterwards is the same object as `tgt0` (same identity, every old key at its old position), its
+properties are the result of the overload loop (`C15_full_overloaded_props` says what that is), and its dict is the old dict
+updated with `cp`: an absorbed name reads the copy, every other name reads what it read before.  (`cp` is `copies …`, the
+dict of copies the loop of `absorb` makes; `C15_full_copy_mirrors_source` says what each copy is.) -/
+theorem C15_full_placement_selection (src dst : Ns) (nsp : Option (List Name)) (ex inc : Option (List Rule))
+    (opts : Option Opts) (c : Nat) (tgt0 : Ns) (c0 : Nat)
+    (hdk : DK src.ports) (hex : WF ex) (hinc : WF inc) (hna : NoAnc inc)
+    (hrules : (ex.isSome && inc.isSome) = false)
+    (ht : targetOf (nsPath nsp) dst c = some (tgt0, c0))
+    (hopts : (overload src.props (opts.getD []) tgt0.props).2 = []) :
+    ∃ (tgt' : Ns) (cp : Ports),
+      (exposePorts src nsp ex inc opts dst c).2.2 = .ok (keys cp) ∧
+      cp = (copies ex inc src.ports c0).1 ∧
+      keys cp = absorbedNames ex inc src.ports ∧
+      leafPathsF cp = (leafPathsF src.ports).filter (selected ex inc) ∧
+      nsAt (nsPath nsp) (exposePorts src nsp ex inc opts dst c).1 = some tgt' ∧
+      tgt'.id = tgt0.id ∧
+      tgt'.props = (overload src.props (opts.getD []) tgt0.props).1 ∧
+      (∃ extra, keys tgt'.ports = keys tgt0.ports ++ extra) ∧
+      (∀ n, lookup n tgt'.ports = if n ∈ keys cp then lookup n cp else lookup n tgt0.ports) := by
+  have hguard : (truthy ex && inc.isSome) = false := by
+    cases ex with
+    | none => simp [truthy]
+    | some l => cases inc <;> simp_all [truthy]
+  have htgt := exposeAt_target (k := absorbTop src ex inc (opts.getD [])) _ _ _ _ _ ht
+  have hnd : (keys (copies ex inc src.ports c0).1).Nodup := by
+    rw [keys_copies]; exact nodup_absorbedNames ex inc (DK_nodup hdk)
+  refine ⟨(absorbTop src ex inc (opts.getD []) tgt0 c0).1, (copies ex inc src.ports c0).1, ?_, rfl, keys_copies _ _ _ _, ?_, ?_, ?_, ?_, ?_, ?_⟩
+  · simp only [exposePorts, hguard, Bool.false_eq_true, if_false, htgt.1, absorbTop_ok hrules hopts, absorbLoop_eq]
+  · simp only [leafPathsF, toPT_copies _ _ _ _ hdk]
+    exact selection_exact _ _ _ hex hinc hna
+  · simp only [exposePorts, hguard, Bool.false_eq_true, if_false, htgt.2]
+  · exact (absorbTop_root _ _ _ _ _ _).1
+  · rw [absorbTop_ok hrules hopts]
+  · exact (absorbTop_root _ _ _ _ _ _).2
+  · intro n
+    rw [absorbTop_ok hrules hopts]
+    simp only [absorbLoop_eq]
+    split
+    · rename_i hn; exact lookup_assignAll_mem _ _ hnd hn
+    · rename_i hn; exact lookup_assignAll_not_mem _ _ hn
+
+/-- **the copies are new objects**: under the hypotheses of `C15_full_placement_selection`, every identity in the dict of
+copies (the copied leaves, the copied nested namespaces and everything below them) has been allocated by this call. -/
+theorem C15_full_copies_fresh (src dst : Ns) (nsp : Option (List Name)) (ex inc : Option (List Rule))
+    (opts : Option Opts) (c : Nat) (tgt0 : Ns) (c0 : Nat)
+    (hrules : (ex.isSome && inc.isSome) = false)
+    (ht : targetOf (nsPath nsp) dst c = some (tgt0, c0))
+    (hopts : (overload src.props (opts.getD []) tgt0.props).2 = []) :
+    ∀ n o, n ∈ absorbedNames ex inc src.ports →
+      (∃ tgt', nsAt (nsPath nsp) (exposePorts src nsp ex inc opts dst c).1 = some tgt' ∧ lookup n tgt'.ports = some o) →
+      ∀ i ∈ oids o, c ≤ i ∧ i < (exposePorts src nsp ex inc opts dst c).2.1 := by
+  intro n o hn ⟨tgt', hat, hl⟩ i hi
+  have hguard : (truthy ex && inc.isSome) = false := by
+    cases ex with
+    | none => simp [truthy]
+    | some l => cases inc <;> simp_all [truthy]
+  have htgt := exposeAt_target (k := absorbTop src ex inc (opts.getD [])) _ _ _ _ _ ht
+  simp only [exposePorts, hguard, Bool.false_eq_true, if_false, htgt.2, Option.some.injEq] at hat
+  subst hat
+  simp only [exposePorts, hguard, Bool.false_eq_true, if_false, htgt.1]
+  rw [absorbTop_ok hrules hopts] at hl ⊢
+  simp only [absorbLoop_eq] at hl ⊢
+  have hc0 : c ≤ c0 := by
+    rcases targetOf_spec _ _ _ _ _ ht with h | h
+    · omega
+    · omega
+  -- the value read under an absorbed name is one of the copies
+  have key : ∀ (l sp : Ports), n ∈ keys l → lookup n (assignAll sp l) = some o → i ∈ ids l := by
+    intro l
+    induction l with
+    | nil => intro sp h; simp [keys] at h
+    | cons e l ih =>
+      intro sp h hlk
+      rw [assignAll_cons] at hlk
+      by_cases hin : n ∈ keys l
+      · have := ih _ hin hlk
+        rw [show e = (e.1, e.2) from rfl, ids_cons]; simp [this]
+      · rw [lookup_assignAll_not_mem _ _ hin] at hlk
+        have he : e.1 = n := by
+          simp only [keys, List.map_cons, List.mem_cons] at h
+          rcases h with h | h
+          · exact h.symm
+          · exact absurd (by simpa [keys] using h) hin
+        rw [← he, lookup_setPort_same] at hlk
+        simp only [Option.some.injEq] at hlk
+        rw [show e = (e.1, e.2) from rfl, ids_cons, hlk]; simp [hi]
+  have := (copies_fresh src.ports ex inc c0).2 i (key _ _ (by rw [keys_copies]; exact hn) hl)
+  exact ⟨by omega, this.2⟩
+
+/-- **the copies carry their sources' attributes and properties, at every depth**: every entry `n ↦ o` of the dict of copies
+comes from the source port of that name: a leaf is copied as a leaf with the same attributes; a nested namespace is copied
+as a namespace whose properties are the source namespace's with the property setters run once more (`overload pr [] pr`, by
+`C15_full_overloaded_props` = `expectedProps pr []`, and equal to `pr` itself when `pr` respects "`valid_type` set ⇒ `dynamic`",
+`C15_full_nested_props_unchanged`), and whose own dict is again a dict of copies — of the nested namespace's ports under
+the stripped rules — so the statement applies to it in turn. -/
+theorem C15_full_copy_mirrors_source (ex inc : Option (List Rule)) (src : Ports) (c : Nat) (hdk : DK src)
+    (n : Name) (o : Obj) (h : lookup n (copies ex inc src c).1 = some o) :
+    ∃ p c1, lookup n src = some p ∧
+      ((∃ j a, p = .leaf j a ∧ o = .leaf c1 a) ∨
+       (∃ j pr sub, p = .ns j pr sub ∧ DK sub ∧
+          o = .ns c1 (overload pr [] pr).1 (copies (strip n ex) (strip n inc) sub (c1 + 1)).1)) := by
+  obtain ⟨p, c1, hm, hr⟩ := copies_entry ex inc src c n o (mem_of_lookup h)
+  have hl := lookup_of_mem (DK_nodup hdk) hm
+  refine ⟨p, c1, hl, ?_⟩
+  rcases hr with hr | ⟨j, pr, sub, rfl, ho⟩
+  · exact Or.inl hr
+  · have hsub : DK sub := by
+      clear hl h ho
+      induction src with
+      | nil => simp at hm
+      | cons e rest ih =>
+        simp only [List.mem_cons] at hm
+        rcases hm with rfl | hm
+        · simp only [DK] at hdk; exact hdk.2.1
+        · obtain ⟨m, q⟩ := e
+          cases q with
+          | leaf _ _ => simp only [DK] at hdk; exact ih hdk.2 hm
+          | ns _ _ _ => simp only [DK] at hdk; exact ih hdk.2.2 hm
+    exact Or.inr ⟨j, pr, sub, rfl, hsub, by rw [ho, absorbLoop_empty _ _ _ _ (DK_nodup hsub)]⟩
+
+/-- re-running the property setters on a namespace's own properties changes nothing when they respect the class's
+convention "a `valid_type` other than `None` ⇒ `dynamic` is `True`" (which the constructor and the `valid_type` setter
+establish, and only an explicit later `dynamic = False` breaks). -/
+theorem C15_full_nested_props_unchanged (pr : Props) (hl : pr.length = nProps)
+    (hconv : pr.getD vtIdx 0 ≠ noneAtom → pr.getD dynIdx 0 = trueAtom) : (overload pr [] pr).1 = pr := by
+  rw [overload_props pr pr [] hl hl]
+  match pr, hl with
+  | [s0, s1, s2, s3, s4, s5, s6], _ =>
+    simp [expectedProps, effProp, optGet, nProps, List.range, List.range.loop, vtIdx, dynIdx, noneAtom, trueAtom] at hconv ⊢
+    intro h; exact (hconv h).symm
+
+/-- **which namespace is the target**: the namespace `create_port_namespace` hands to `absorb` is the namespace that was
+at the requested path (re-used as it is, nothing allocated), or — if the path did not exist — a new, empty namespace with
+default properties and a fresh identity. -/
+theorem C15_full_target_existing_or_new (dst : Ns) (path : List Name) (c : Nat) (tgt0 : Ns) (c0 : Nat)
+    (ht : targetOf path dst c = some (tgt0, c0)) :
+    (nsAt path dst = some tgt0 ∧ c0 = c) ∨
+    (nsAt path dst = none ∧ tgt0.props = defaultProps ∧ tgt0.ports = [] ∧ c ≤ tgt0.id ∧ tgt0.id < c0) :=
+  targetOf_spec path dst c tgt0 c0 ht
+
+/-- **properties**: with the seven mutable properties of `PortNamespace`, the overload loop of `absorb` gives every property
+the override from the namespace options if there is one and the source namespace's value otherwise — except that `dynamic`
+ends up `True` whenever the `valid_type` that is set is not `None` (the `valid_type` setter runs later in the enumeration and
+forces it; an override `dynamic=False` is then lost, and so is a source namespace's own `dynamic=False`). -/
+theorem C15_full_overloaded_props (src self : Props) (opts : Opts) (hs : src.length = nProps) (hd : self.length = nProps) :
+    (overload src opts self).1 = expectedProps src opts :=
+  overload_props src self opts hs hd
+
+/-- **frame**: a port of the destination at a path `q` that leaves the path to the target namespace at some component, or
+that lies inside the target namespace below a name that is not absorbed, is after the call the same object with the same
+contents (identity, properties / attributes, everything below it) — whether the call returns or raises. -/
+theorem C15_full_frame (src dst : Ns) (nsp : Option (List Name)) (ex inc : Option (List Rule)) (opts : Option Opts)
+    (c : Nat) (q : List Name) (h : untouched (absorbedNames ex inc src.ports) (nsPath nsp) q = true) :
+    getAt q (exposePorts src nsp ex inc opts dst c).1.ports = getAt q dst.ports := by
+  unfold exposePorts
+  split
+  · rfl
+  · exact exposeAt_frame (absorbTop_kframe src ex inc _) _ q dst c h
+
+/-- **frame, the destination itself**: it keeps its identity, every key of its dict keeps its position (new keys go to the
+end), and unless it is itself the target it keeps its properties. -/
+theorem C15_full_destination_kept (src dst : Ns) (nsp : Option (List Name)) (ex inc : Option (List Rule))
+    (opts : Option Opts) (c : Nat) :
+    (exposePorts src nsp ex inc opts dst c).1.id = dst.id ∧
+    (∃ extra, keys (exposePorts src nsp ex inc opts dst c).1.ports = keys dst.ports ++ extra) ∧
+    (nsPath nsp ≠ [] → (exposePorts src nsp ex inc opts dst c).1.props = dst.props) := by
+  unfold exposePorts
+  split
+  · exact ⟨rfl, ⟨[], by simp⟩, fun _ => rfl⟩
+  · exact exposeAt_root (absorbTop_root src ex inc _) _ dst c
+
+/-- all identities of a namespace are below the allocation counter -/
+def Full.Below (c : Nat) (n : Ns) : Prop := ∀ i ∈ n.ids, i < c
+
+/-- **independence, one call**: every object of the destination afterwards was in the destination before or has been
+allocated by this call (whether it returns or raises).  Hence, if all identities of the source and of the destination are
+below the counter and the two share no object, then afterwards they still share no object (nothing reachable from the
+destination is reachable from the source: a later change to an object of one side cannot show through to the other), and
+all identities are below the new counter. -/
+theorem C15_full_independent (src dst : Ns) (nsp : Option (List Name)) (ex inc : Option (List Rule))
+    (opts : Option Opts) (c : Nat) (hd : Below c dst) (hs : Below c src) (hsep : ∀ i ∈ dst.ids, i ∉ src.ids) :
+    c ≤ (exposePorts src nsp ex inc opts dst c).2.1 ∧
+    (∀ i ∈ (exposePorts src nsp ex inc opts dst c).1.ids,
+        i ∈ dst.ids ∨ (c ≤ i ∧ i < (exposePorts src nsp ex inc opts dst c).2.1)) ∧
+    (∀ i ∈ (exposePorts src nsp ex inc opts dst c).1.ids, i ∉ src.ids) ∧
+    Below (exposePorts src nsp ex inc opts dst c).2.1 (exposePorts src nsp ex inc opts dst c).1 ∧
+    Below (exposePorts src nsp ex inc opts dst c).2.1 src := by
+  have h := exposePorts_ids_all src nsp ex inc opts dst c
+  have hall := h.2
+  refine ⟨h.1, hall, ?_, ?_, ?_⟩
+  · intro i hi hsrc
+    rcases hall i hi with h' | h'
+    · exact hsep i h' hsrc
+    · have := hs i hsrc; omega
+  · intro i hi
+    rcases hall i hi with h' | h'
+    · have := hd i h'; have := h.1; omega
+    · exact h'.2
+  · intro i hi; have := hs i hi; have := h.1; omega
+
+/-- **independence is an invariant over sequences of expose calls**: start with a destination and sources whose identities
+are below the counter and such that no source shares an object with the destination; after any sequence of expose calls
+from these sources (returning or raising, into any namespaces), the same holds again. -/
+theorem C15_full_seq_invariant (calls : List Call) (dst : Ns) (c : Nat) (hd : Below c dst)
+    (hs : ∀ k ∈ calls, Below c k.src ∧ ∀ i ∈ dst.ids, i ∉ k.src.ids) :
+    c ≤ (exposeSeq calls dst c).2 ∧ Below (exposeSeq calls dst c).2 (exposeSeq calls dst c).1 ∧
+    ∀ k ∈ calls, Below (exposeSeq calls dst c).2 k.src ∧ ∀ i ∈ (exposeSeq calls dst c).1.ids, i ∉ k.src.ids := by
+  have h := exposeSeq_ids_all calls dst c
+  refine ⟨h.1, ?_, ?_⟩
+  · intro i hi
+    rcases h.2 i hi with h' | h'
+    · have := hd i h'; have := h.1; omega
+    · exact h'.2
+  · intro k hk
+    refine ⟨fun i hi => by have := (hs k hk).1 i hi; have := h.1; omega, ?_⟩
+    intro i hi hsrc
+    rcases h.2 i hi with h' | h'
+    · exact (hs k hk).2 i h' hsrc
+    · have := (hs k hk).1 i hsrc; omega
+
+/-! ### rejection — and what a rejected call has already done to the destination -/
+
+/-- **no option left over** means: every key of the namespace options is one of the properties. -/
+theorem C15_full_options_accepted_iff (src self : Props) (opts : Opts) :
+    (overload src opts self).2 = [] ↔ ∀ kv ∈ opts, kv.1 < src.length :=
+  overload_left_nil src self opts
+
+/-- **include together with a non-empty exclude** is rejected by the guard of `_expose_ports`, before anything is touched:
+the destination is unchanged and nothing is allocated. -/
+theorem C15_full_guard_rejects_unchanged (src dst : Ns) (nsp : Option (List Name)) (ex inc : Option (List Rule))
+    (opts : Option Opts) (c : Nat) (he : truthy ex = true) (hi : inc.isSome = true) :
+    exposePorts src nsp ex inc opts dst c = (dst, c, .error .exclusive) := by
+  simp [exposePorts, he, hi]
+
+/-- **include together with exclude is always rejected** (also with an EMPTY exclude, which passes the guard of
+`_expose_ports` and is caught only by `absorb`, i.e. after `create_port_namespace` has run). -/
+theorem C15_full_include_exclude_rejected (src dst : Ns) (nsp : Option (List Name)) (ex inc : Option (List Rule))
+    (opts : Option Opts) (c : Nat) (he : ex.isSome = true) (hi : inc.isSome = true) :
+    ∃ e, (exposePorts src nsp ex inc opts dst c).2.2 = .error e := by
+  unfold exposePorts
+  split
+  · exact ⟨_, rfl⟩
+  · cases ht : targetOf (nsPath nsp) dst c with
+    | none =>
+      rcases exposeAt_no_target (k := absorbTop src ex inc (opts.getD [])) _ _ _ ht with h | h
+      · exact ⟨_, h⟩
+      · exact ⟨_, h⟩
+    | some tc =>
+      have := (exposeAt_target (k := absorbTop src ex inc (opts.getD [])) _ _ _ tc.1 tc.2 ht).1
+      rw [this, absorbTop_exclusive (by simp [he, hi])]
+      exact ⟨_, rfl⟩
+
+/-- **an unknown option is rejected — after the target's properties have been overloaded**: if some option is left over,
+the call raises, and the namespace at the requested path afterwards is the target (created if it was missing) with its
+properties ALREADY replaced by the source's / the valid overrides; its ports are as before. -/
+theorem C15_full_unknown_option_rejected (src dst : Ns) (nsp : Option (List Name)) (ex inc : Option (List Rule))
+    (opts : Option Opts) (c : Nat) (tgt0 : Ns) (c0 : Nat)
+    (hguard : (truthy ex && inc.isSome) = false) (hrules : (ex.isSome && inc.isSome) = false)
+    (ht : targetOf (nsPath nsp) dst c = some (tgt0, c0))
+    (hopts : (overload src.props (opts.getD []) tgt0.props).2 ≠ []) :
+    (exposePorts src nsp ex inc opts dst c).2.2 = .error .unknownOption ∧
+    nsAt (nsPath nsp) (exposePorts src nsp ex inc opts dst c).1
+      = some { tgt0 with props := (overload src.props (opts.getD []) tgt0.props).1 } := by
+  have htgt := exposeAt_target (k := absorbTop src ex inc (opts.getD [])) _ _ _ _ _ ht
+  constructor
+  · simp only [exposePorts, hguard, Bool.false_eq_true, if_false, htgt.1, absorbTop_unknown hrules hopts]
+  · simp only [exposePorts, hguard, Bool.false_eq_true, if_false, htgt.2, absorbTop_unknown hrules hopts]
+
+/-- **a rejected call adds and removes no port**: whatever the reason of the rejection, the leaf ports of the destination
+(all paths, in order) are the same as before.  What a rejected call MAY leave behind — the real code does — is new empty
+namespaces on the path to the target and, for an unknown option, overloaded properties of the target (the `example`s below);
+the frame `C15_full_frame`, `C15_full_destination_kept` and the independence theorems hold for rejected calls as well. -/
+theorem C15_full_rejected_adds_no_port (src dst : Ns) (nsp : Option (List Name)) (ex inc : Option (List Rule))
+    (opts : Option Opts) (c : Nat) (e : Err) (h : (exposePorts src nsp ex inc opts dst c).2.2 = .error e) :
+    leafPathsF (exposePorts src nsp ex inc opts dst c).1.ports = leafPathsF dst.ports := by
+  unfold exposePorts at h ⊢
+  split
+  · rfl
+  · rename_i hg
+    simp only [hg, if_false] at h
+    refine exposeAt_error_leafPaths ?_ _ _ _ e h
+    intro self c' e' he
+    rw [absorbTop_error_ports _ _ _ _ _ _ e' he]
+
+/-! ### non-vacuity: concrete trees -/
+
+/-- source: namespace 20 (help=9) with leaf `a`, nested namespace `ab` (valid_type=8, so `dynamic` is forced) holding `x`, `y`,
+and leaf `abc` -/
+def exSrc : Ns := ⟨20, [3, 2, 9, 1, 1, 0, 0],
+  [("a", .leaf 21 7), ("ab", .ns 22 [3, 2, 0, 1, 1, 8, 0] [("x", .leaf 23 7), ("y", .leaf 24 6)]), ("abc", .leaf 25 5)]⟩
+/-- destination: leaf `pre1`, namespace `tgt` that already holds `abc` (will be overwritten in place) and `own` (stays) -/
+def exDst : Ns := ⟨0, defaultProps,
+  [("pre1", .leaf 1 5), ("tgt", .ns 2 [3, 2, 4, 1, 1, 0, 0] [("abc", .leaf 3 6), ("own", .leaf 4 5)])]⟩
+
+-- the hypotheses of `C15_full_placement_selection` hold for: expose into the EXISTING namespace `tgt`, exclude `ab.y`,
+-- override `required` (index 4) with atom 2
+example : DK exSrc.ports ∧ WF (some [["ab", "y"]]) ∧ NoAnc (none : Option (List Rule)) ∧
+    targetOf (nsPath (some ["tgt"])) exDst 30 = some (⟨2, [3, 2, 4, 1, 1, 0, 0], [("abc", .leaf 3 6), ("own", .leaf 4 5)]⟩, 30) ∧
+    (overload exSrc.props [(4, 2)] [3, 2, 4, 1, 1, 0, 0]).2 = [] := by
+  refine ⟨by simp [DK, exSrc, keys], ?_, ?_, rfl, rfl⟩
+  · intro r hr; simp [rulesOf] at hr; subst hr; simp
+  · intro r hr; simp [rulesOf] at hr
+-- … and this is what the call does: `abc` overwritten in place by a fresh copy, `own` stays, `a` and `ab` (without `y`)
+-- appended; the target keeps its identity 2 and takes the source's properties with `required` overridden
+example : (exposePorts exSrc (some ["tgt"]) (some [["ab", "y"]]) none (some [(4, 2)]) exDst 30).1 =
+    ⟨0, defaultProps, [("pre1", .leaf 1 5), ("tgt", .ns 2 [3, 2, 9, 1, 2, 0, 0]
+      [("abc", .leaf 33 5), ("own", .leaf 4 5), ("a", .leaf 30 7), ("ab", .ns 31 [3, 1, 0, 1, 1, 8, 0] [("x", .leaf 32 7)])])]⟩ := by
+  simp [exposePorts, nsPath, exposeAt, absorbTop, overload, overloadFrom, setProp, optGet, optDel, absorbLoop, setPort, lookup,
+    truthy, mentions, touches, strip, exSrc, exDst, Ns.toObj, defaultProps, vtIdx, dynIdx, noneAtom, trueAtom]
+example : untouched (absorbedNames (some [["ab", "y"]]) none exSrc.ports) ["tgt"] ["tgt", "own"] = true ∧
+    untouched (absorbedNames (some [["ab", "y"]]) none exSrc.ports) ["tgt"] ["pre1"] = true ∧
+    untouched (absorbedNames (some [["ab", "y"]]) none exSrc.ports) ["tgt"] ["tgt", "abc"] = false := by
+  simp [untouched, absorbedNames, toPT, absorbPorts, exSrc, truthy, mentions, touches, strip]
+example : Below 30 exDst ∧ Below 30 exSrc ∧ ∀ i ∈ exDst.ids, i ∉ exSrc.ids := by
+  simp [Below, Ns.ids, ids, exDst, exSrc]
+
+-- the real code changes the destination before it raises, and so does the model:
+-- (1) `exclude=[]` with an include passes the guard of `_expose_ports`; `create_port_namespace('new.sub')` runs; `absorb` raises
+example : (exposePorts exSrc (some ["new", "sub"]) (some []) (some [["a"]]) none exDst 30).2.2 = .error .exclusive ∧
+    (exposePorts exSrc (some ["new", "sub"]) (some []) (some [["a"]]) none exDst 30).1.ports =
+      exDst.ports ++ [("new", .ns 30 defaultProps [("sub", .ns 31 defaultProps [])])] := ⟨rfl, rfl⟩
+-- (2) an unknown option (index 100): raised after the properties of the (existing) target have been overloaded
+example : (exposePorts exSrc (some ["tgt"]) none none (some [(100, 1), (2, 6)]) exDst 30).2.2 = .error .unknownOption ∧
+    nsAt ["tgt"] (exposePorts exSrc (some ["tgt"]) none none (some [(100, 1), (2, 6)]) exDst 30).1 =
+      some ⟨2, [3, 2, 6, 1, 1, 0, 0], [("abc", .leaf 3 6), ("own", .leaf 4 5)]⟩ := ⟨rfl, rfl⟩
+-- (3) `'new.'`: the recursive `create_port_namespace('')` raises after `new` has been created
+example : (exposePorts exSrc (some ["new", ""]) none none none exDst 30).2.2 = .error .emptyName ∧
+    keys (exposePorts exSrc (some ["new", ""]) none none none exDst 30).1.ports = ["pre1", "tgt", "new"] := ⟨rfl, rfl⟩
+-- (4) the override `dynamic=False` (index 1, atom 2) is lost when the source's `valid_type` is not `None`
+example : expectedProps [3, 2, 0, 1, 1, 8, 0] [(1, 2)] = [3, 1, 0, 1, 1, 8, 0] := by decide
 
 end Expose
